@@ -157,6 +157,9 @@ def box_around_point(p, dist):
     else:
         dlon = degrees(asin(sin(d) / cos(latr)))
         lon_l, lon_r = lon - dlon, lon + dlon
+        if lon_l < -180.0 or lon_r > 180.0:
+            # The disc crosses the antimeridian, a single longitude interval cannot describe it
+            lon_l, lon_r = -180.0, 180.0
     lat_t, lat_b = min(degrees(lat_t), 90.0), max(degrees(lat_b), -90.0)
     return lat_b, lon_l, lat_t, lon_r
 
